@@ -11,8 +11,11 @@ import (
 	"path/filepath"
 	"strings"
 	"testing"
+	"time"
 
+	"github.com/google/uuid"
 	"github.com/wrgl/wrgl/pkg/prune"
+	"github.com/wrgl/wrgl/pkg/ref"
 )
 
 type C12Plan struct {
@@ -26,6 +29,21 @@ type C12Plan struct {
 	// absent from the store although tables list them
 	Lost    int  `json:"lost,omitempty"`
 	LostTop bool `json:"lost_top,omitempty"`
+	// LostCommit k > 0: the commit object of the FIRST parent of merge commit k-1 is absent (a damaged or partly
+	// restored store). Prune may refuse to run; if it runs, everything still reachable through the objects that are
+	// present (the merge's other parents and their history) must survive
+	LostCommit int `json:"lost_commit,omitempty"`
+	// TxTTL (CLI cases): the open transaction has a row of its own, begun AgeH simulated hours before `wrgl gc` runs;
+	// transactionTTL is set to TTLH hours in the repository's config ("local"), in the user's global config ("global"),
+	// or not at all ("": the 30-day default). Only transactions younger than the TTL in force are generated: gc must
+	// leave them, their refs and everything they reach alone
+	TxTTL *C12TxTTL `json:"tx_ttl,omitempty"`
+}
+
+type C12TxTTL struct {
+	AgeH  int    `json:"age_h"`
+	TTLH  int    `json:"ttl_h"`
+	Where string `json:"where"`
 }
 
 type C12Ref struct {
@@ -55,6 +73,33 @@ func init() {
 			}
 			if r.Chance(0.12) {
 				p.Lost, p.LostTop = r.Range(1, 3), r.Chance(0.6)
+			}
+			if p.ViaCLI && p.Lost == 0 && r.Chance(0.5) {
+				p.Refs = append(p.Refs, C12Ref{Kind: "tx", Commit: r.Intn(n)})
+				tt := &C12TxTTL{Where: Pick(r, []string{"", "local", "global", "global"})}
+				if tt.Where == "" {
+					tt.AgeH = Pick(r, []int{1, 24, 700, 719})
+				} else {
+					tt.TTLH = Pick(r, []int{1000, 2400, 24 * 365})
+					tt.AgeH = Pick(r, []int{1, 721, 800, tt.TTLH - 1})
+				}
+				p.TxTTL = tt
+				return p
+			}
+			if p.Lost == 0 && r.Chance(0.08) {
+				var merges []int
+				for i, ps := range p.Repo.Graph.Parents {
+					if len(ps) >= 2 && ps[0] != ps[1] {
+						merges = append(merges, i)
+					}
+				}
+				if len(merges) > 0 {
+					m := Pick(r, merges)
+					p.LostCommit = m + 1
+					// a ref on the merge (or on a descendant) so that it matters
+					p.Refs = append(p.Refs, C12Ref{Kind: "head", Commit: Pick(r, []int{m, m, n - 1})})
+					return p
+				}
 			}
 			if r.Chance(0.3) {
 				for k := r.Range(1, 2); k > 0; k-- {
@@ -137,6 +182,19 @@ func execC12(t *testing.T, raw json.RawMessage, res *Result) {
 		}
 		res.probe("damaged_repository_lost_blocks", 1)
 	}
+	if p.LostCommit < 0 || p.LostCommit > n || (p.LostCommit > 0 && (len(p.Faults) > 0 || p.Lost > 0)) {
+		res.Invalid("lost commit")
+		return
+	}
+	if p.LostCommit > 0 {
+		ps := p.Repo.Graph.Parents[p.LostCommit-1]
+		if len(ps) < 2 || ps[0] == ps[1] {
+			res.Invalid("lost commit: not a merge")
+			return
+		}
+		st.RawDelete("com/" + string(br.Commits[ps[0]]))
+		res.probe("damaged_repository_lost_first_parent_of_merge", 1)
+	}
 	// blocks only referenced by removed (shallow) tables stay as garbage: prune may or may not take them
 	db, err := OpenRefDB(refPath)
 	if err != nil {
@@ -180,8 +238,40 @@ func execC12(t *testing.T, raw json.RawMessage, res *Result) {
 		}
 		db.Delete(names[d])
 	}
+	if p.TxTTL != nil {
+		tt := p.TxTTL
+		ttl := 720
+		if tt.Where != "" {
+			ttl = tt.TTLH
+		}
+		if !p.ViaCLI || tt.AgeH < 0 || tt.AgeH >= ttl || ttl > 24*365*20 || (tt.Where != "" && tt.Where != "local" && tt.Where != "global") || len(p.Faults) > 0 {
+			db.Close()
+			res.Invalid("tx_ttl")
+			return
+		}
+		if _, err := db.NewTransaction(&ref.Transaction{ID: uuid.MustParse(c12tx), Status: ref.TSInProgress, Begin: bubbleEpoch.Add(node.Clock)}); err != nil {
+			db.Close()
+			res.Invalid("transaction row: %v", err)
+			return
+		}
+	}
 	refs, _ := db.Filter(nil, nil)
 	db.Close()
+	if p.TxTTL != nil {
+		os.Setenv("XDG_CONFIG_HOME", filepath.Join(node.Root, "xdg"))
+		if p.TxTTL.Where != "" {
+			args := []string{"config", "set", "transactionTTL", fmt.Sprintf("%dh", p.TxTTL.TTLH)}
+			if p.TxTTL.Where == "global" {
+				args = append(args, "--global")
+			}
+			if r := node.Run(t, args...); r.Failed() {
+				res.Invalid("wrgl %v: %v %s", args, r.Err, r.Stdout)
+				return
+			}
+		}
+		node.Clock += time.Duration(p.TxTTL.AgeH) * time.Hour
+		res.probe("open_transaction_younger_than_ttl_"+p.TxTTL.Where, 1)
+	}
 
 	before := st.Snapshot()
 	beforeOK := map[string]bool{} // tables that were sound before
@@ -195,7 +285,24 @@ func execC12(t *testing.T, raw json.RawMessage, res *Result) {
 	reach := map[string]bool{}
 	for _, sum := range refs {
 		anc, err := rawAncestors(st, sum)
-		if err != nil {
+		if err != nil && p.LostCommit > 0 {
+			// what can still be reached through the commit objects that are present
+			anc = map[string]bool{}
+			stack := [][]byte{sum}
+			for len(stack) > 0 {
+				s := stack[len(stack)-1]
+				stack = stack[:len(stack)-1]
+				if anc[string(s)] {
+					continue
+				}
+				c := rawCommit(st, s)
+				if c == nil {
+					continue
+				}
+				anc[string(s)] = true
+				stack = append(stack, c.Parents...)
+			}
+		} else if err != nil {
 			res.Invalid("pre-state dangling: %v", err)
 			return
 		}
@@ -234,6 +341,10 @@ func execC12(t *testing.T, raw json.RawMessage, res *Result) {
 			if bubbleProblems(res, cr.Out, "wrgl "+cmdName) {
 				return false
 			}
+			if cr.Err != nil && p.LostCommit > 0 {
+				res.probe("prune_refuses_damaged_history", 1)
+				return true
+			}
 			if cr.Err != nil {
 				if which == "first" && faultsFired(p.Faults) {
 					res.probe("prune_failed_on_injected_error", 1)
@@ -256,6 +367,10 @@ func execC12(t *testing.T, raw json.RawMessage, res *Result) {
 			})
 			if bubbleProblems(res, bo, which+" prune") {
 				return false
+			}
+			if perr != nil && p.LostCommit > 0 {
+				res.probe("prune_refuses_damaged_history", 1)
+				return true
 			}
 			if perr != nil {
 				if which == "first" && faultsFired(p.Faults) {
@@ -377,11 +492,39 @@ func execC12(t *testing.T, raw json.RawMessage, res *Result) {
 	}
 	return true
 	}
-	if !checkAfter(st.Snapshot(), !faultFired) {
+	if !checkAfter(st.Snapshot(), !faultFired && p.LostCommit == 0) {
+		return
+	}
+	if p.LostCommit > 0 {
+		res.Nontrivial = true
 		return
 	}
 	if !runPrune("second") {
 		return
+	}
+	if p.TxTTL != nil {
+		// gc ran: the transaction is younger than the TTL in force, so its refs and what they reach are still there
+		if !checkAfter(st.Snapshot(), true) {
+			return
+		}
+		db2, err := OpenRefDB(refPath)
+		if err != nil {
+			res.Invalid("refdb: %v", err)
+			return
+		}
+		refs2, _ := db2.Filter(nil, nil)
+		_, terr := db2.GetTransaction(uuid.MustParse(c12tx))
+		db2.Close()
+		for name := range refs {
+			if _, ok := refs2[name]; !ok {
+				res.Violate("gc-removed-live-ref", "`wrgl gc` removed ref %s: the transaction began %d h ago and transactionTTL (%s config) is %d h (0 = the 30-day default)", name, p.TxTTL.AgeH, p.TxTTL.Where, p.TxTTL.TTLH)
+				return
+			}
+		}
+		if terr != nil {
+			res.Violate("gc-removed-live-transaction", "`wrgl gc` discarded a transaction begun %d h ago although transactionTTL (%s config) is %d h (0 = the 30-day default): %v", p.TxTTL.AgeH, p.TxTTL.Where, p.TxTTL.TTLH, terr)
+			return
+		}
 	}
 	if faultFired {
 		// once the errors stop, one more prune completes the job
